@@ -655,6 +655,25 @@ theorem VPath_of_reach (s : Scene) (v : Seg) (vs : List LV) (hl : (v, vs) ∈ s.
     apply List.mem_append_right
     exact List.mem_flatMap.mpr ⟨(v, vs), hl, List.mem_map.mpr ⟨(a, c), he, rfl⟩⟩
 
+/-- **A path along a line, general form.**  On every line of the model (horizontal; `line_path_v`
+    vertical): from a breakpoint `a` one reaches every breakpoint `b` at a higher position by graph edges
+    along that line, provided all breakpoints strictly between them are dummy vertices (routes do not pass
+    through connector end point vertices) and, if `a` / `b` are connector end points, their flags allow
+    leaving `a` towards higher and `b` towards lower coordinates. -/
+theorem line_path_h (s : Scene) (h : Seg) (vs : List LV) (hl : (h, vs) ∈ s.lines.hs) (a b : BP)
+    (ha : a ∈ toBPs (dirsX s.fixDirs) vs) (hb : b ∈ toBPs (dirsX s.fixDirs) vs) (hab : a.t < b.t)
+    (h1 : a.k.isConn = true → a.up = true) (h2 : b.k.isConn = true → b.dn = true)
+    (hmid : ∀ c ∈ toBPs (dirsX s.fixDirs) vs, a.t < c.t → c.t < b.t → c.k.isConn = false) :
+    HPath s.graph h.p ⟨a.t, h.p, a.k⟩ ⟨b.t, h.p, b.k⟩ :=
+  HPath_of_reach s h vs hl (line_reach (toBPs_sorted _ vs) _ a b ha hb hab h1 h2 hmid (Nat.le_refl _))
+
+theorem line_path_v (s : Scene) (v : Seg) (vs : List LV) (hl : (v, vs) ∈ s.lines.vs) (a b : BP)
+    (ha : a ∈ toBPs (dirsY s.fixDirs) vs) (hb : b ∈ toBPs (dirsY s.fixDirs) vs) (hab : a.t < b.t)
+    (h1 : a.k.isConn = true → a.up = true) (h2 : b.k.isConn = true → b.dn = true)
+    (hmid : ∀ c ∈ toBPs (dirsY s.fixDirs) vs, a.t < c.t → c.t < b.t → c.k.isConn = false) :
+    VPath s.graph v.p ⟨v.p, a.t, a.k⟩ ⟨v.p, b.t, b.k⟩ :=
+  VPath_of_reach s v vs hl (line_reach (toBPs_sorted _ vs) _ a b ha hb hab h1 h2 hmid (Nat.le_refl _))
+
 /-- **Hanan-type statement, one bend (`hanan_path_exists_L_partial`).**  End points `A` (number `i`) and `B`
     (number `j`), `B` to the right of and below `A` (larger x, larger y); `A` may be left to the Right, `B`
     upwards; boxes of positive size; the two legs of the L over the corner `(B.x, A.y)` cross no box (every
